@@ -725,8 +725,27 @@ impl TypeChecker {
                 let ty = self.resolve_type(ctx, ty)?;
                 // The declaration is all we know about an external - `fn` means impure here, not
                 // "any purity" as it does for an annotation.
-                if let Type::Function(args, ret, Purity::Undefined) = self.find_type(ty) {
-                    self.find_node_mut(ty).ty = Type::Function(args, ret, Purity::Impure);
+                // The same goes for the functions it hands out - what it returns, what it holds.
+                // (What it takes is up to the caller - a callback can be of any purity.)
+                let mut todo = vec![ty];
+                let mut seen = BTreeSet::new();
+                while let Some(ty) = todo.pop() {
+                    let ty = self.find(ty);
+                    if !seen.insert(ty) {
+                        continue;
+                    }
+                    match self.find_type(ty) {
+                        Type::Function(args, ret, purity) => {
+                            if matches!(purity, Purity::Undefined) {
+                                self.find_node_mut(ty).ty =
+                                    Type::Function(args, ret, Purity::Impure);
+                            }
+                            todo.push(ret);
+                        }
+                        Type::Tuple(tys) => todo.extend(tys),
+                        Type::List(ty) => todo.push(ty),
+                        _ => {}
+                    }
                 }
                 self.unify(*span, ctx, self.variables[*var].ty, ty)?;
                 self.generalised.insert(*var);
